@@ -22,6 +22,9 @@ FIXES = [
     ("fixed-C02-unprintable-exception-lands-in-data", "C02", "data_mismatch", "exception whose __str__ raises"),
     ("fixed-C11-schema-extension-directive-only", "C11", "type_differs", "directive-only schema extension"),
     ("fixed-C11-interface-field-covariance", "C11", "cook_failed", "valid implementation field type"),
+    ("fixed-C07-enum-string-literal", "C07", "string-spelling-a-value", "literal spelling an enum value"),
+    ("fixed-C07-reserved-name-field", "C07", "reserved-name", "starts with two underscores"),
+    ("fixed-C06-subscription-root-repeated", "C06", "valid_request_refused", "single root field several times"),
 ]
 
 
